@@ -21,7 +21,8 @@ FIELD_KINDS = ["scalar", "scalar+constraints", "scalar+constraints+nullable", "s
                "ref-to-struct", "ref-to-enum+default", "ref-to-constant", "ref-to-constant-other-package",
                "ref-to-constant+optional", "ref-to-constant-other-package+nullable", "ref-to-constant-via-alias",
                "constant_ref", "array", "map", "struct", "enum+default", "disj", "inter", "slot", "ref-unresolved",
-               "scalar+constraints+operator-repeated", "array+default+empty-collection", "ref-to-struct+default+empty-collection"]
+               "scalar+constraints+operator-repeated", "array+default+empty-collection", "ref-to-struct+default+empty-collection",
+               "scalar+constraints+default", "scalar+default+nullable"]
 OBJECT_KINDS = ["struct", "alias-of-struct", "alias-chain-of-struct", "alias-chain-crossing-packages-of-struct",
                 "alias-chain-crossing-packages-of-scalar", "alias-of-enum", "alias-of-constant", "alias-of-array",
                 "enum", "scalar", "constant", "array", "map", "disj"]
@@ -79,6 +80,14 @@ DEEP_OBJECT_KINDS = ["alias-chain-crossing-packages-of-constant", "alias-chain-c
                      "alias-chain-of-disj", "alias-of-inter", "inter"]
 DEEP_FIELD_KINDS = ["ref-to-constant-via-alias-crossing-packages", "ref-to-scalar+default", "ref-to-array", "slot+nullable", "struct+nullable",
                     "map+default", "array+default", "scalar+constraints+default", "constant_ref+nullable", "ref-to-inter", "ref-to-disj+nullable"]
+
+
+def gate(ctx, msg):
+    """A vacuity / self-test problem makes the run inconclusive - unless violations were observed: those are reported first."""
+    if ctx.failures:
+        ctx.notes.append("GATE (not fatal, violations were observed): " + msg)
+    else:
+        raise core.Inconclusive(msg)
 
 
 def merge(total, s):
@@ -169,8 +178,12 @@ def run(ctx):
     missing += [k for k in FIELD_KINDS + ([] if quick else DEEP_FIELD_KINDS) if s["per_field_kind"].get(k, 0) == 0]
     missing += [k for k in OBJECT_KINDS + ([] if quick else DEEP_OBJECT_KINDS) if s["per_object_kind"].get(k, 0) == 0]
     if missing:
-        raise core.Inconclusive("never exercised: %s" % missing)
-    binding = selftest(ctx)
+        gate(ctx, "never exercised: %s" % missing)
+    try:
+        binding = selftest(ctx)
+    except core.Inconclusive as e:
+        gate(ctx, str(e))
+        binding = "not established: %s" % e
     trs = cov.pop("tlc_trace")
     judged = s["cases"] - s["out_of_scope"]
     fields = sum(s["per_field_kind"].values())
@@ -185,7 +198,7 @@ def run(ctx):
         "distinct_nontrivial": judged,
         "rule": "one evaluation = one schema set (a TLC state) on which the real BuilderGenerator.FromAST ran and was compared, conjunct by "
                 "conjunct, with Derive(S), and whose real result was judged again by TLC (C16Violated). Universe 'pairs': object Main with one "
-                "field kind or an ordered pair of two of 33 field kinds x 6 surroundings (plain; alias chains whose second hop crosses into a "
+                "field kind or an ordered pair of two of 36 field kinds x 7 surroundings (plain; alias chains whose second hop crosses into a "
                 "loaded second package next to same-named objects of another kind; aliases of structs / alias chains / aliases of enums and "
                 "constants declared before their targets; non-struct objects; second package not loaded; alias of an unloaded object)%s. "
                 "Universe 'pipeline': 2 schema sets x 7 lists of final passes (prefix_objects_names, retype_field, omit, rename_object, omit_fields) x 5 "
